@@ -13,6 +13,26 @@ def has_neg(prql):
     return "(-(" in prql
 
 
+def takes_across_sort_before_group(pg):
+    """two takes with a sort between them, and a group / window over groups later on"""
+    ks = pg.kinds()
+    for i, k in enumerate(ks):
+        if k != "take":
+            continue
+        for j in range(i + 1, len(ks)):
+            if ks[j] == "take" and "sort" in ks[i + 1:j] and any(x in ("group_agg", "group_take", "group_win", "aggregate", "distinct") for x in ks[j + 1:]):
+                return True
+    return False
+
+
+def let_then_window(pg):
+    k = pg.meta.get("let_at")
+    if not k:
+        return False
+    ks = pg.kinds()
+    return any(x in ("win", "group_win") for x in ks[k:])
+
+
 def classify_common(rec):
     """Known defects of the unchanged tree that any relational program can run into (recorded under the
     property whose clause they break; other properties' oracles skip such cases, see `skip_reason`)."""
@@ -21,9 +41,11 @@ def classify_common(rec):
     sql = rec.get("sql") or ""
     if v == "sql-err":
         msg = (rec.get("sqlite") or {}).get("exec_err", "")
+        if rec["target"] == "sql.generic" and re.search(r'near "(ALL|DISTINCT)": syntax error', msg) and re.search(r"(INTERSECT|EXCEPT|UNION) (ALL|DISTINCT)", sql):
+            return "oracle-generic-setop"      # generic spells set operations with ALL/DISTINCT, which SQLite does not parse
         if "same number of result columns" in msg and "append" in kinds:
             return "F28-append-prune"
-        if "syntax error" in msg and re.search(r"(?<!LIMIT \d)(?<!LIMIT \d\d) OFFSET \d+", sql) and not re.search(r"LIMIT -?\d+ OFFSET", sql[max(0, sql.rfind(" OFFSET") - 12):]) \
+        if "syntax error" in msg and bare_offset(sql) \
                 and any(s.kind == "take" and s.info.get("rng", (None, 0))[1] is None for s in rec["program"].steps):
             return "F27-offset-without-limit" if rec["target"] == "sql.sqlite" else "oracle-generic-offset"
         if "--" in sql and has_neg(rec["prql"]):
@@ -32,7 +54,19 @@ def classify_common(rec):
         p = (rec.get("compile") or {}).get("panic", {})
         if "name of this column has not been to be set" in p.get("msg", "") and "gen_expr.rs" in p.get("loc", ""):
             return "F29-unnamed-column-panic"
+    if v == "sql-err" and rec["program"].meta.get("let_at") and re.search(r"no such column: x\d+", str(rec.get("sqlite"))) and re.search(r"p0 AS \(SELECT \*", sql):
+        return "F36-let-table-star-loses-derived-name"
+    if v == "sql-err" and "join" in kinds and re.search(r"no such column: \w+\._expr_\d+", str(rec.get("sqlite"))) and re.search(r"ORDER BY [^()]*\b\w+\._expr_\d+", sql):
+        return "F38-order-by-qualified-generated-alias"
+    if v == "sql-err" and rec["program"].meta.get("let_at") and re.search(r"no such column: [a-z]+\b", str(rec.get("sqlite"))) and re.search(r"WITH p0 AS \(SELECT (?!\*)", sql):
+        return "F39-let-sort-key-expression-reinlined"
+    if v == "rows" and " INTERSECT " in sql and any(st.info.get("alljoin") and st.info.get("side") == "Inner" for st in rec["program"].steps):
+        return "F41-inner-join-rewritten-to-intersect"
     if v in ("rows", "names", "sql-err"):
+        if v == "rows" and takes_across_sort_before_group(rec["program"]) and len(re.findall(r"\bLIMIT\b", sql)) < sum(1 for k in kinds if k == "take"):
+            return "F37-takes-merged-across-sort-before-group"
+        if v == "rows" and let_then_window(rec["program"]):
+            return "F35-let-boundary-hides-order-from-window"
         if rec["target"] == "sql.generic" and " / " in rec["prql"]:
             return "oracle-generic-divf"      # generic `/` is emitted without `* 1.0`; SQLite then divides integers (F16: an artefact of running generic SQL on SQLite)
         if "append" in kinds and append_pruned(sql):
@@ -52,9 +86,23 @@ def append_pruned(sql):
     """the top operand of a UNION ALL has an explicit column list while the bottom operand is `SELECT *`"""
     for m in re.finditer(r"UNION ALL SELECT \* FROM", sql):
         head = sql[:m.start()]
-        cut = max(head.rfind(" AS (SELECT"), 0)
-        top = head[cut:]
-        if re.search(r"SELECT (?!\* FROM)(?!\*,)", top) and re.search(r"SELECT (?!\*)[^*]*? FROM t\b", top):
+        cut = head.rfind(" AS (SELECT")
+        top = head[cut + 5:] if cut >= 0 else head
+        # innermost operand directly in front of UNION ALL: a wrapped `(SELECT ...) AS x` or the operand itself
+        sel = top[top.find("SELECT ") + 7:]
+        lst = sel[:sel.find(" FROM ")] if " FROM " in sel else sel
+        if lst.strip() == "*" and "(SELECT " in sel:
+            inner = sel[sel.find("(SELECT ") + 8:]
+            lst = inner[:inner.find(" FROM ")] if " FROM " in inner else inner
+        if lst.strip() not in ("*", ""):
+            return True
+    return False
+
+
+def bare_offset(sql):
+    """some OFFSET in the text is not preceded by a LIMIT"""
+    for m in re.finditer(r" OFFSET \d+", sql):
+        if not re.search(r"LIMIT -?\d+$", sql[:m.start()]):
             return True
     return False
 
